@@ -78,6 +78,143 @@ def prefix_forms(a: str, b: str) -> set:
     return {f"{a}[:len({b})] == {b}", f"{b} == {a}[:len({b})]"}
 
 
+# ---- order-case domain -------------------------------------------------------------------------------------------------------------------------------------
+# Two paths stand in exactly one of five relations; every structural predicate that only COMPARES the two paths is a subset of these cases, so a definition that
+# is a boolean combination of comparisons / prefix tests / calls of sibling predicates can be decided exhaustively (the predicates touch the paths only through a
+# finite set of orderings).  Witness pairs are used in messages only.
+CASES = ("EQ", "A12", "A21", "LT", "GT")
+CASE_WITNESS = {"EQ": "path_1 = path_2 = (1,)", "A12": "path_1 = (1,), path_2 = (1, 0)  [node 1 is an ancestor of node 2]", "A21": "path_1 = (1, 0), path_2 = (1,)  [node 1 lies below node 2]",
+                "LT": "path_1 = (0,), path_2 = (1,)", "GT": "path_1 = (1,), path_2 = (0,)"}
+ALL_CASES = frozenset(CASES)
+_SWAP = {"EQ": "EQ", "A12": "A21", "A21": "A12", "LT": "GT", "GT": "LT"}
+ORDER_SPEC = {"same_position": frozenset({"EQ"}), "different_position": ALL_CASES - {"EQ"}, "inside": frozenset({"EQ", "A21"}), "before": frozenset({"LT"}), "after": frozenset({"GT"})}
+
+
+class NotOrderExpr(Exception):
+    pass
+
+
+def _swap_cases(cs):
+    return frozenset(_SWAP[c] for c in cs)
+
+
+def _path_var(e):
+    while isinstance(e, ast.Call) and call_name(e) in ("tuple", "list") and len(e.args) == 1 and not e.keywords:
+        e = e.args[0]
+    return e.id if isinstance(e, ast.Name) and e.id in ("P1", "P2") else None
+
+
+def _prefix_slice(e):
+    """X[:len(Y)] -> (X, Y)"""
+    if isinstance(e, ast.Subscript) and isinstance(e.slice, ast.Slice) and e.slice.lower is None and e.slice.step is None and isinstance(e.slice.upper, ast.Call) \
+            and call_name(e.slice.upper) == "len" and len(e.slice.upper.args) == 1:
+        x, y = _path_var(e.value), _path_var(e.slice.upper.args[0])
+        if x and y:
+            return x, y
+    return None
+
+
+def order_cases(e, module, assume, depth=0):
+    """Cases (of P1 vs P2) in which the boolean expression `e` over the normalised names T, P1, P2 is true."""
+    if depth > 6:
+        raise NotOrderExpr("recursion")
+    if isinstance(e, ast.Constant) and isinstance(e.value, bool):
+        return ALL_CASES if e.value else frozenset()
+    if isinstance(e, ast.UnaryOp) and isinstance(e.op, ast.Not):
+        return ALL_CASES - order_cases(e.operand, module, assume, depth)
+    if isinstance(e, ast.BoolOp):
+        parts = [order_cases(v, module, assume, depth) for v in e.values]
+        out = parts[0]
+        for q in parts[1:]:
+            out = (out & q) if isinstance(e.op, ast.And) else (out | q)
+        return out
+    if isinstance(e, ast.IfExp):
+        t = order_cases(e.test, module, assume, depth)
+        return (t & order_cases(e.body, module, assume, depth)) | ((ALL_CASES - t) & order_cases(e.orelse, module, assume, depth))
+    if isinstance(e, ast.Compare) and len(e.ops) == 1:
+        l, r, op = e.left, e.comparators[0], e.ops[0]
+        for a_, b_ in ((l, r), (r, l)):
+            ps = _prefix_slice(a_)
+            if ps and isinstance(op, (ast.Eq, ast.NotEq)):
+                x, y = ps
+                if _path_var(b_) != y:
+                    raise NotOrderExpr(src(e))
+                base = ALL_CASES if x == y else (frozenset({"EQ", "A21"}) if (x, y) == ("P1", "P2") else frozenset({"EQ", "A12"}))  # Y prefix of X
+                return base if isinstance(op, ast.Eq) else ALL_CASES - base
+        x, y = _path_var(l), _path_var(r)
+        if x and y:
+            table = {ast.Eq: {"EQ"}, ast.NotEq: set(CASES) - {"EQ"}, ast.Lt: {"A12", "LT"}, ast.LtE: {"EQ", "A12", "LT"}, ast.Gt: {"A21", "GT"}, ast.GtE: {"EQ", "A21", "GT"}}
+            if type(op) not in table:
+                raise NotOrderExpr(src(e))
+            base = frozenset(table[type(op)])
+            if x == y:
+                return ALL_CASES if "EQ" in base else frozenset()
+            return base if (x, y) == ("P1", "P2") else _swap_cases(base)
+        raise NotOrderExpr(src(e))
+    if isinstance(e, ast.Call) and isinstance(e.func, ast.Name) and len(e.args) == 3 and not e.keywords:
+        u, v = _path_var(e.args[1]), _path_var(e.args[2])
+        if not (u and v):
+            raise NotOrderExpr(src(e))
+        if e.func.id in assume:
+            inner = assume[e.func.id]
+        else:
+            fn = module.get(e.func.id)
+            if not isinstance(fn, ast.FunctionDef):
+                raise NotOrderExpr(src(e))
+            inner = order_cases_of_function(fn, module, assume, depth + 1)
+        if (u, v) == ("P1", "P2"):
+            return inner
+        if (u, v) == ("P2", "P1"):
+            return _swap_cases(inner)
+        return ALL_CASES if "EQ" in inner else frozenset()
+    raise NotOrderExpr(src(e))
+
+
+def order_cases_of_function(fn, module, assume, depth=0):
+    nf, _ = normalise(fn)
+    if len(nf.args.args) != 3:
+        raise NotOrderExpr(f"{fn.name}: not (tree, path, path)")
+    body = body_wo_doc(nf)
+
+    def block(stmts):
+        if not stmts:
+            raise NotOrderExpr("falls off the end")
+        st = stmts[0]
+        if isinstance(st, ast.Return) and st.value is not None:
+            return order_cases(st.value, module, assume, depth)
+        if isinstance(st, ast.If):
+            t = order_cases(st.test, module, assume, depth)
+            rest = stmts[1:]
+            then_exits = any(isinstance(x, ast.Return) for x in st.body[-1:])
+            if not then_exits:
+                raise NotOrderExpr("if without return")
+            els = st.orelse + rest if st.orelse and not any(isinstance(x, ast.Return) for x in st.orelse[-1:]) else (st.orelse or rest)
+            return (t & block(st.body)) | ((ALL_CASES - t) & block(els))
+        if isinstance(st, (ast.Pass, ast.Assert)) or (isinstance(st, ast.Expr) and isinstance(st.value, ast.Constant)):
+            return block(stmts[1:])
+        raise NotOrderExpr(src(st)[:60])
+
+    return block(body)
+
+
+def judge_order(ctx, rule, name, f, c, module, assume) -> bool:
+    """Decide predicate `name` over the five order cases if its definition is a boolean combination of path comparisons.  Returns False when it is not."""
+    try:
+        got = order_cases_of_function(f, module, assume)
+    except NotOrderExpr:
+        return False
+    want = ORDER_SPEC[name]
+    wrong = [k for k in CASES if (k in got) != (k in want)]
+    if not wrong:
+        ctx.ok(rule, c, f"{name} over the five path-order cases", site(f), f"true exactly for {sorted(want)}")
+    else:
+        k = wrong[0]
+        ctx.viol(rule, c, f"{name} over the five path-order cases", site(f),
+                 f"{name}(node_1, node_2) answers {k in got} for {CASE_WITNESS[k]}; the specification says {k in want} "
+                 f"(definition is true for the cases {sorted(got)}, documented meaning {sorted(want)})")
+    return True
+
+
 def registry(ctx):
     m = ctx.repo.module(PRED, "C04.G1")
     consts = m.constants()
@@ -132,6 +269,12 @@ def rule_g1(ctx):
             impls[fn.name] = name
 
 
+def ASSUME(entries):
+    """Assume-guarantee: inside the definition of one predicate, a call of a sibling predicate's implementation stands for that sibling's DOCUMENTED meaning (the sibling
+    has its own obligation); this also covers `before`, whose recursive definition is not a boolean combination of comparisons."""
+    return {entries[n][1].name: ORDER_SPEC[n] for n in ORDER_SPEC if n in entries}
+
+
 def rule_g2(ctx):
     m, entries = registry(ctx)
 
@@ -149,7 +292,7 @@ def rule_g2(ctx):
         ctx.ok("G2-same-position", c, "P1 == P2", site(f), "path equality")
     elif r in ("P1 != P2", "P2 != P1"):
         ctx.viol("G2-same-position", c, "P1 == P2", site(f), f"same_position must be path equality, body returns {r}")
-    else:
+    elif not judge_order(ctx, "G2-same-position", "same_position", f, c, m, {}):
         raise Unrecognised("C04.G2", c, f"same_position body not recognised: {r}")
     same_name = f.name
     # different_position
@@ -163,7 +306,7 @@ def rule_g2(ctx):
         ctx.ok("G2-different-position", c, "complement of same_position", site(f), "complement of path equality")
     elif r in bad:
         ctx.viol("G2-different-position", c, "complement of same_position", site(f), f"different_position must be the complement of same_position, body returns {r}")
-    else:
+    elif not judge_order(ctx, "G2-different-position", "different_position", f, c, m, ASSUME(entries)):
         raise Unrecognised("C04.G2", c, f"different_position body not recognised: {r}")
     # inside
     f = impl("inside")
@@ -178,7 +321,7 @@ def rule_g2(ctx):
     elif r is not None and _re.fullmatch(r"all\(\((\w+) == (\w+) for \1, \2 in zip\((P1, P2|P2, P1)\)\)\)", r):
         ctx.viol("G2-inside", c, "P2 prefix of P1", site(f),
                  f"inside is decided by `{r}`: zip() stops at the shorter path, so the test only says that one path is a prefix of the OTHER - inside(ancestor, descendant) becomes true as well")
-    else:
+    elif not judge_order(ctx, "G2-inside", "inside", f, c, m, ASSUME(entries)):
         raise Unrecognised("C04.G2", c, f"inside body not recognised: {r}")
     # direct_child
     f = impl("direct_child")
@@ -204,7 +347,8 @@ def rule_g2(ctx):
     before_name = f.name
     nf, _ = normalise(f)
     c = f"{PRED}:{f.name}"
-    check_before(ctx, nf, f, c)
+    if not judge_order(ctx, "G2-before", "before", f, c, m, {k: v for k, v in ASSUME(entries).items() if k != f.name}):
+        check_before(ctx, nf, f, c)
     # after
     f = impl("after")
     nf, _ = normalise(f)
@@ -240,7 +384,7 @@ def rule_g2(ctx):
                       f"after is written as 'not before and <exclusions>' but does not exclude the class(es) {missing}: for such pairs neither node is "
                       "strictly later in document order, yet after answers True (e.g. path_1=(1,0), path_2=(1,))",
                       "complement of before with all three non-order classes excluded")
-        else:
+        elif not judge_order(ctx, "G2-after-converse", "after", f, c, m, ASSUME(entries)):
             raise Unrecognised("C04.G2", c, f"after body not recognised: {r}")
 
 
@@ -475,5 +619,9 @@ def run(ctx) -> str:
     ctx.guarded("G4", lambda: rule_g4(ctx))
     ctx.guarded("G5", lambda: rule_g5(ctx))
     ctx.guarded("G6", lambda: rule_g6(ctx))
+    from ..generic import check_optional_path_truthiness
+
+    # the paths handed to the structural predicates come from find_node in StructuralPredicateFormula.evaluate: the root `()` is a legal argument (inside(x, start))
+    ctx.guarded("G7", lambda: ctx.inventory.__setitem__("find_node_calls", check_optional_path_truthiness(ctx, "G7-root-path-falsy", ["src/isla/language.py"], min_sources=3)))
     ctx.assume("the predicate table of sphinx/islaspec.rst is the documented meaning")
     return EXPLANATION
